@@ -27,7 +27,7 @@ RUSTFLAGS="--cfg pest_parser_pest_verif" CARGO_NET_OFFLINE=true cargo +nightly f
 bin=$tdir/x86_64-unknown-linux-gnu/release/$target
 log=$WORK/fuzz-$target.log
 rundir=$WORK/fuzz-run-$target; rm -rf "$rundir"; mkdir -p "$rundir"   # libFuzzer writes fuzz-<job>.log into the cwd
-( cd "$rundir" && "$bin" -artifact_prefix="$art/" -runs="$runs" -seed="$seed" -max_len=$maxlen $( [ "$dict" = /dev/null ] || echo -dict="$dict" ) -len_control=0 -timeout=20 -rss_limit_mb=4096 -jobs="$jobs" -workers="$jobs" "$corpus" > "$log" 2>&1 )
+( cd "$rundir" && "$bin" -artifact_prefix="$art/" -runs="$runs" -seed="$seed" -max_len=$maxlen $( [ "$dict" = /dev/null ] || echo -dict="$dict" ) -len_control=0 -timeout=120 -rss_limit_mb=4096 -jobs="$jobs" -workers="$jobs" "$corpus" > "$log" 2>&1 )
 rm -rf "$rundir"
 execs=$(grep -hoE "Done [0-9]+ runs" "$log" | awk '{s+=$2} END {print s+0}')
 echo "fuzz target=$target property=$prop executions=$execs jobs=$jobs seed=$seed corpus_files=$(ls "$corpus" | wc -l)"
